@@ -37,3 +37,9 @@ Proof. vm_compute. reflexivity. Qed.
    and re-conditioning: the call returns what the three members hold *)
 Lemma composite_call_fresh_witness : seq_fresh_after gen_cfg h_seq 2 = true.
 Proof. vm_compute. reflexivity. Qed.
+
+(* direct access to a composite after an in-place edit of a member: fresh after clear_buffers() on the
+   composite, stale without it (the stale case is documented behaviour, shown to make the witness non-trivial) *)
+Lemma composite_direct_witness :
+  seq_direct_fresh_after gen_cfg h_seq_direct 2 = true /\ seq_direct_fresh_after gen_cfg h_seq_direct_noclear 2 = false.
+Proof. vm_compute. split; reflexivity. Qed.
